@@ -224,6 +224,10 @@ class C17(PropCheck):
             for k2 in ("mod", "builtin"):
                 out.append({"k": "initializing", "mods": [[1, k1 in ("mod", "both"), k1 in ("builtin", "both"), False, False],
                                                           [2, k2 == "mod", k2 == "builtin", False, False]]})
+                # ... and the same when nothing else is imported afterwards: the number of modules is what it was during the import
+                out.append({"k": "initializing", "alone": True,
+                            "mods": [[1, k1 in ("mod", "both"), k1 in ("builtin", "both"), False, False],
+                                     [2, k2 == "mod", k2 == "builtin", False, False]]})
         # built-in glue registered for a module that is already loaded (what happens at `import stackscope`)
         for own in (True, False):
             for raises in (False, True):
@@ -254,7 +258,7 @@ class C17(PropCheck):
             sched += [["until_stuck", i] for i in range(1, n)] + [["until_stuck", 0]] + [["until_stuck", i] for i in range(1, n)]
             return json.dumps({"p": "C17", "mods": case["mods"], "threads": n, "sched": sched})
         if case["k"] == "initializing":
-            ops = [["insert", 1], ["extractI", [1]], ["insert", 2], ["extract"], ["extract"]]
+            ops = [["insert", 1], ["extractI", [1]]] + ([] if case.get("alone") else [["insert", 2]]) + [["extract"], ["extract"]]
             return json.dumps({"p": "C17", "mods": case["mods"], "ops": ops})
         if case["k"] == "glue_imports":
             ops = [["insert", 2 + j] for j in range(case["extra"])] + [["insert", 0], ["extractA", [1]], ["extract"], ["extract"]]
@@ -290,7 +294,8 @@ class C17(PropCheck):
             if own is not None:
                 m1._stackscope_install_glue_ = own
             m1.__spec__._initializing = False
-            lab.insert(2)
+            if not case.get("alone"):
+                lab.insert(2)
             lab.extract()
             lab.extract()
             return " ".join(lab.log)
